@@ -385,9 +385,22 @@ def run(ctx):
                   "success is returned only after argParser_.parse succeeded (or init delegates)",
                   "init can return 0 although argument parsing failed or was skipped")
     pa = ctx.fn1("Oomd::PluginArgParser::parse")
-    fpa = Flow(P, pa, cg=cg, edge_tokens=lambda k, p: ["missing"] if ("args.find(argName)" in k and "end()" in k and p is True) else (
-        ["unknown"] if ("argValueFillingFuncs_.find(" in k and "end()" in k and p is True) else (
-            ["filler-failed"] if (k == "funcRes" and p is False) else None)))
+    # locals that hold an iterator into the filler table / the result of a filler
+    it_names = [v_["name"] for d_ in pa.all("decl") for v_ in pa.nodes[d_].get("vars", [])
+                if "init" in v_ and v_["init"] is not None and v_["init"] >= 0 and "argValueFillingFuncs_.find(" in pa.text(v_["init"])]
+    res_names = [v_["name"] for d_ in pa.all("decl") for v_ in pa.nodes[d_].get("vars", [])
+                 if "init" in v_ and v_["init"] is not None and v_["init"] >= 0 and any(pa.nodes[x]["k"] == "call" and pa.nodes[x].get("op") == "()" for x in pa.walk(v_["init"]))] or ["funcRes"]
+    UNK = re.compile(r"argValueFillingFuncs_\.find\(|\b(%s)(@\d+)?\b" % "|".join(map(re.escape, it_names or ["\0"])))
+
+    def _tok(k, p):
+        if re.search(r"args\.find\(\w+(@\d+)?\)", k) and "args.end()" in k and p is True:
+            return ["missing"]
+        if UNK.search(k) and "argValueFillingFuncs_.end()" in k and p is True:
+            return ["unknown"]
+        if re.sub(r"@\d+$", "", k) in res_names and p is False:
+            return ["filler-failed"]
+        return None
+    fpa = Flow(P, pa, cg=cg, edge_tokens=_tok)
     okp = {"missing": False, "unknown": False, "filler-failed": False}
     bad_ok = []
     for kind, node, b, parts in fpa.exits():
@@ -404,10 +417,11 @@ def run(ctx):
     for tok, v in okp.items():
         ctx.check(v and tok not in bad_ok, "argparser:%s-is-an-error" % tok, "return_table", pa.loc(),
                   "%s argument leads to an error result" % tok, "%s argument does not lead to an error result on every path" % tok)
-    fillers = [i for i in pa.calls() if pa.nodes[i].get("op") == "()" and "argValueFillingFuncs_" in pa.text(pa.nodes[i].get("recv", -1))]
+    fillers = [i for i in pa.calls() if pa.nodes[i].get("op") == "()" and ("argValueFillingFuncs_" in pa.text(pa.nodes[i].get("recv", -1)) or
+                                                                            any(re.search(r"\b%s\b" % re.escape(nm_), pa.text(pa.nodes[i].get("recv", -1))) for nm_ in it_names))]
     fg = Flow(P, pa, cg=cg)
     for i in fillers:
-        ctx.check(any(p is False and "argValueFillingFuncs_.find(" in k and "end()" in k for k, p in fg.guards(i)),
+        ctx.check(any(p is False and UNK.search(k) and "argValueFillingFuncs_.end()" in k for k, p in fg.guards(i)),
                   "argparser:filler-only-for-declared", "guarded_by", pa.loc(i), "a filler runs only for a declared argument name",
                   "a filler can be invoked for an undeclared name")
     # the wrapper installed by addArgumentCustom converts parser exceptions to an error
@@ -499,5 +513,7 @@ def run(ctx):
     fs_ = Flow(P, sda, cg=cg)
     for i in sda.calls("emplace_back", "push_back"):
         if "drop_in_queue_" in sda.text(sda.nodes[i].get("recv", -1)):
-            ctx.check(any(p is True and k.startswith("unit") for k, p in fs_.guards(i)), "enqueue-only-compiled-dropins", "guarded_by", sda.loc(i),
+            holders = [v_["name"] for d_ in sda.all("decl") for v_ in sda.nodes[d_].get("vars", [])
+                       if "init" in v_ and v_["init"] is not None and v_["init"] >= 0 and any(sda.nodes[x]["k"] == "call" and (sda.nodes[x].get("cname") or "") == "compileDropIn" for x in sda.walk(v_["init"]))]
+            ctx.check(any(p is True and any(k == h_ or k.startswith(h_ + ".") for h_ in holders) for k, p in fs_.guards(i)) and bool(holders), "enqueue-only-compiled-dropins", "guarded_by", sda.loc(i),
                       "a drop-in is enqueued only if it compiled", "an uncompiled drop-in can be enqueued")
